@@ -285,6 +285,119 @@ fn filter_index(q: &Query) -> HashMap<String, Or> {
     m
 }
 
+/// existence tests over queries that are easily confused with each other (same characters,
+/// different segmentation; same text under another root), combined pairwise in one filter, over
+/// documents in which their truth values vary independently
+pub fn confusable_cases(rng: &mut Rng, n_docs: usize) -> Vec<(String, J)> {
+    let tails = [".ab", ".a.b", "['a.b']", ".a['b']", ".x1", ".x[1]", ".x['1']", ".l[0,1]", ".l[0][1]", ".l[:]", ".l[0:]", ".l[0:0]", ".l[*]", "..b", ".a..b", ".a.*", "['a','b']", ".a", ".b"];
+    let block = |r: &mut Rng| -> J {
+        let mut m: Vec<(String, J)> = vec![];
+        let o = |k: &str, v: J| J::Obj(vec![(k.to_string(), v)]);
+        if r.chance(1, 2) {
+            m.push(("ab".into(), J::int(1 + r.below(3) as i64)));
+        }
+        if r.chance(2, 3) {
+            m.push(("a".into(), match r.below(5) { 0 | 1 => o("b", J::int(1 + r.below(3) as i64)), 2 => o("c", J::int(1)), 3 => o("b", o("b", J::int(2))), _ => J::int(1) }));
+        }
+        if r.chance(1, 2) {
+            m.push(("a.b".into(), J::int(1 + r.below(3) as i64)));
+        }
+        if r.chance(1, 2) {
+            m.push(("x1".into(), if r.chance(1, 4) { J::Null } else { J::int(1 + r.below(3) as i64) }));
+        }
+        if r.chance(2, 3) {
+            m.push(("x".into(), match r.below(4) { 0 => J::Arr(vec![J::int(0)]), 1 => J::Arr(vec![J::int(0), J::Bool(false)]), 2 => J::Arr(vec![J::int(0), J::int(1 + r.below(3) as i64)]), _ => o("1", J::int(1 + r.below(3) as i64)) }));
+        }
+        if r.chance(3, 4) {
+            m.push(("l".into(), match r.below(5) { 0 => J::Arr(vec![]), 1 => J::Arr(vec![J::int(0)]), 2 => J::Arr(vec![J::int(0), J::int(1)]), 3 => J::Arr(vec![J::Arr(vec![J::int(0), J::int(1 + r.below(3) as i64)]), J::int(2)]), _ => J::Arr(vec![J::Arr(vec![J::int(0)]), J::Arr(vec![J::int(1)])]) }));
+        }
+        if r.chance(1, 3) {
+            m.push(("b".into(), J::int(2)));
+        }
+        J::Obj(m)
+    };
+    let docs: Vec<J> = (0..n_docs)
+        .map(|_| {
+            let mut root = match block(rng) { J::Obj(m) => m, _ => vec![] };
+            let list: Vec<J> = (1..=4).map(|k| match block(rng) { J::Obj(mut m) => { m.push(("k".into(), J::int(k))); J::Obj(m) } other => other }).collect();
+            root.push(("list".into(), J::Arr(list)));
+            J::Obj(root)
+        })
+        .collect();
+    let mut atoms: Vec<String> = vec![];
+    for root in ["$", "@"] {
+        for t in tails {
+            atoms.push(format!("{}{}", root, t));
+        }
+    }
+    let mut out = vec![];
+    let mut n = 0usize;
+    // the same confusion between singular queries used as comparison operands
+    let sing = ["$.ab", "$.a.b", "$['a.b']", "$.x1", "$.x[1]", "$.x['1']", "$.l[0][1]", "$.l[0]", "$.l[1]", "$.b", "$.a", "@.ab", "@.a.b", "@.x1", "@.x[1]", "@.l[0][1]", "@.b"];
+    for (i, p) in sing.iter().enumerate() {
+        for (k, q) in sing.iter().enumerate() {
+            if i == k {
+                continue;
+            }
+            for f in [format!("@.k == {} || @.k == {}", p, q), format!("@.k != {} && @.k != {}", p, q), format!("{} == {}", p, q), format!("@.k == {} && @.b == {} || {} != {}", p, q, q, p), format!("@.k >= {} || @.k < {}", p, q)] {
+                n += 1;
+                out.push((format!("$.list[?{}]", f), docs[n % docs.len()].clone()));
+            }
+        }
+    }
+    for (i, p) in atoms.iter().enumerate() {
+        for (k, q) in atoms.iter().enumerate() {
+            if i == k {
+                continue;
+            }
+            // same root: all pairs; across roots: only the same tail and a sample of the others
+            let same_root = p.as_bytes()[0] == q.as_bytes()[0];
+            if !same_root && p[1..] != q[1..] && (i * 31 + k) % 7 != 0 {
+                continue;
+            }
+            let forms = [format!("{} && {}", p, q), format!("{} || {}", p, q), format!("!{} && {}", p, q), format!("{} || !{}", p, q), format!("@.k == 1 && {} || @.k == 2 && {}", p, q), format!("({} || @.k == 3) && !({} && @.k == 4)", p, q)];
+            for f in forms {
+                n += 1;
+                out.push((format!("$.list[?{}]", f), docs[n % docs.len()].clone()));
+                out.push((format!("$.list[?{}]", f), docs[(n * 7 + 3) % docs.len()].clone()));
+            }
+        }
+    }
+    out
+}
+
+/// chains of == under || ("one of") and of != under && ("none of") between one singular query
+/// and literals of every type, 2..6 operands, over values with int / float twins
+pub fn in_list_cases(rng: &mut Rng, n: usize) -> Vec<(String, J)> {
+    let lits = ["0", "1", "2", "100", "-1", "1.0", "2.0", "2.5", "1e2", "-0.0", "0.0", "'a'", "'1'", "'2'", "null", "true", "false", "\"a\""];
+    let vals = vec![
+        J::int(0), J::int(1), J::int(2), J::int(100), J::int(-1), J::float(0.0), J::float(-0.0), J::float(1.0), J::float(2.0), J::float(100.0), J::float(2.5), J::float(-1.0),
+        J::str("a"), J::str("1"), J::str("2"), J::Null, J::Bool(true), J::Bool(false), J::Arr(vec![J::int(1)]), J::Obj(vec![("v".into(), J::int(1))]),
+    ];
+    let mut elems: Vec<J> = vals.iter().map(|v| J::Obj(vec![("v".into(), v.clone()), ("w".into(), J::Arr(vec![v.clone()]))])).collect();
+    elems.push(J::Obj(vec![("u".into(), J::int(1))]));
+    elems.push(J::int(1));
+    let doc = J::Obj(vec![("vals".into(), J::Arr(elems)), ("pick".into(), J::float(2.0)), ("one".into(), J::int(1))]);
+    let subjects = ["@.v", "@['v']", "@.w[0]", "$.pick", "@.w[-1]", "$.one"];
+    let mut out = vec![];
+    for _ in 0..n {
+        let k = 2 + rng.below(5) as usize;
+        let subj = *rng.pick(&subjects[..]);
+        let none_of = rng.chance(1, 3);
+        let ops: Vec<String> = (0..k)
+            .map(|_| {
+                let l = *rng.pick(&lits[..]);
+                let op = if none_of { "!=" } else { "==" };
+                if rng.chance(1, 4) { format!("{} {} {}", l, op, subj) } else { format!("{} {} {}", subj, op, l) }
+            })
+            .collect();
+        let body = ops.join(if none_of { " && " } else { " || " });
+        let body = match rng.below(4) { 0 => format!("!({})", body), 1 => format!("({}) && @.v", body), _ => body };
+        out.push((format!("$.vals[?{}]", body), doc.clone()));
+    }
+    out
+}
+
 pub fn run(ctx: &Ctx) -> Result<Evidence, String> {
     let armed: Armed = arm(ctx, &|_| None)?;
     let mut rng = Rng::stream(ctx.seed, 5);
@@ -310,6 +423,10 @@ pub fn run(ctx: &Ctx) -> Result<Evidence, String> {
             }
         }
     }
+    let n_plain_ladders = ladder_cases.len();
+    ladder_cases.extend(confusable_cases(&mut rng, ctx.tier.pick(24, 96)));
+    let n_confusable_end = ladder_cases.len();
+    ladder_cases.extend(in_list_cases(&mut rng, ctx.tier.pick(4000, 100_000)));
     let ladders: Vec<(String, Doc)> = ladder_cases.into_iter().map(|(q, d)| (q, Doc::new(&d))).collect();
     let n_lad = ladders.len();
     let n_f = fs.len() * 2; // arr + obj
@@ -363,10 +480,11 @@ pub fn run(ctx: &Ctx) -> Result<Evidence, String> {
             fam = "hostile-names-in-filters";
             formula = None;
         } else if i >= n_f + n_ex + n_sc + n_rand {
-            let (q, d) = &ladders[i - n_f - n_ex - n_sc - n_rand];
+            let k = i - n_f - n_ex - n_sc - n_rand;
+            let (q, d) = &ladders[k];
             text = q.clone();
             doc = d;
-            fam = "depth-ladder";
+            fam = if k < n_plain_ladders { "depth-ladder" } else if k < n_confusable_end { "confusable-existence-tests" } else { "in-list-chains" };
             formula = None;
         } else {
             let mut r = Rng::stream(seed, 9000 + i as u64);
